@@ -85,8 +85,26 @@ def handleC13 (op : String) (input impl : Json) : Except String Json := do
     let reruns ← (← arrFld v "rerun").mapM rstateOf
     let faulted ← (← arrFld v "faulted").mapM asBool
     let rerunOk ← (← arrFld v "rerunOk").mapM asBool
+    -- single injected write errors (optional fields: older corpus entries lack them)
+    let arrD := fun (k : String) => match v.getObjVal? k with
+      | .ok (.arr a) => a.toList
+      | _ => []
+    let errStates ← (arrD "errStates").mapM rstateOf
+    let errReruns ← (arrD "errRerun").mapM rstateOf
+    let errReported ← (arrD "errReported").mapM asBool
+    let errRerunOk ← (arrD "errRerunOk").mapM asBool
+    let sameOutcome := fun (r : RState) =>
+      (r.refs.mergeSort (fun a b => decide (a.1 ≤ b.1))) == (final.refs.mergeSort (fun a b => decide (a.1 ≤ b.1))) &&
+      final.coms.all r.coms.contains && final.tbls.all r.tbls.contains && final.blks.all r.blks.contains &&
+      final.idxs.all r.idxs.contains && final.tblIdx.all r.tblIdx.contains && (consistentClauses u heads r == [])
+    let errViol :=
+      (errStates.flatMap (consistentClauses u heads)).eraseDups ++
+      -- an operation that swallows the error must still have produced the uninterrupted outcome
+      (if ((errStates.zip errReported).all (fun (s, rep) => rep || sameOutcome s)) then [] else ["write-error-is-reported"]) ++
+      (if errRerunOk.all id then [] else ["rerun-succeeds"]) ++
+      (if errReruns.all sameOutcome then [] else ["rerun-reaches-the-uninterrupted-outcome"])
     -- property clauses, on every real crash state and on the end states
-    let crashViol := (crashes.flatMap (consistentClauses u heads)).eraseDups
+    let crashViol := ((crashes.flatMap (consistentClauses u heads)) ++ errViol).eraseDups
     let viol := crashViol ++
       (if consistentClauses u heads init == [] then [] else ["initial-state-inconsistent(harness)"]) ++
       ((consistentClauses u heads final).map (fun s => "final:" ++ s)) ++
